@@ -511,7 +511,7 @@ def model_case(c, im=None):
 
 
 # ------------------------------------------------------------------------------- parsing
-KEYS = ("bin", "fbin", "cf", "tf", "af", "cnt", "sum", "go", "per", "nx")
+KEYS = ("bin", "fbin", "cf", "tf", "af", "cnt", "sum", "go", "scr", "per", "nx")
 
 
 def parse_fields(tokens):
@@ -525,7 +525,7 @@ def parse_fields(tokens):
         elif cur is not None:
             # a token cut short by a crash of the implementation (or garbage) never compares equal
             try:
-                if cur in ("bin", "fbin", "cnt", "per", "nx"):
+                if cur in ("bin", "fbin", "cnt", "per", "nx", "scr"):
                     out[cur].append(int(t))
                 else:
                     out[cur].append(float.fromhex(t))
@@ -1265,7 +1265,7 @@ def run_batch(exe, cases, d, tag):
     return rc, res, e
 
 
-def compare_fields(a, b, keys=("bin", "fbin", "cnt", "sum", "tf", "cf", "af", "go")):
+def compare_fields(a, b, keys=("bin", "fbin", "cnt", "sum", "tf", "cf", "af", "go", "scr")):
     for k in keys:
         if a.get(k) != b.get(k):
             # -0.0 == 0.0 in python; NaN never equal
@@ -1279,7 +1279,7 @@ def setup():
         V.build_prog(n, s)
 
 
-SHOWN = ("bin", "fbin", "cf", "tf", "af", "cnt", "sum", "go")
+SHOWN = ("bin", "fbin", "cf", "tf", "af", "cnt", "sum", "go", "scr")
 
 
 def tie_case(run, c, im, mline):
@@ -1295,7 +1295,7 @@ def tie_case(run, c, im, mline):
             # first update of a bias defined at run time: the reported total force of a variable that was already measuring
             # total forces (subtractAppliedForce) is that of the last step before the definition, which the model of the
             # bias does not contain; everything else is compared
-            bad = compare_fields(a, b, keys=("bin", "fbin", "cnt", "sum", "cf", "af", "go"))
+            bad = compare_fields(a, b, keys=("bin", "fbin", "cnt", "sum", "cf", "af", "go", "scr"))
         else:
             bad = compare_fields(a, b)
         if bad:
